@@ -333,6 +333,23 @@ pub fn candidates(function: &str, seed: u64) -> Vec<Value> {
             prog.clear();
         }
     }
+    if function.contains("cond_model") || function.contains("condition_model") || function.contains("prop:C01") {
+        // systematic: a binary operation on two literals, conditioned on every model over two of the three variables
+        for order in ORDERS.iter() {
+            for (i, j) in [(0usize, 4usize), (0, 2), (2, 4), (1, 4), (0, 5)] {
+                for opn in ["and", "or", "xor"] {
+                    for (a, b2) in [(0usize, 1usize), (1, 2), (0, 2), (2, 1)] {
+                        for (pa, pb) in [(true, true), (true, false), (false, true), (false, false)] {
+                            let mut q = lits.clone();
+                            q.push(json!([opn, i, j]));
+                            q.push(json!(["condmodel", 6, [[a, pa], [b2, pb]]]));
+                            out.push(json!({"case": "bdd_prog", "order": order, "cache": "all", "ops": q, "shape": shape, "only": only}));
+                        }
+                    }
+                }
+            }
+        }
+    }
     if !smooth_only {
         for order in [vec![0u64], vec![0, 1], vec![1, 0], vec![0, 1, 2], vec![2, 0, 1], vec![1, 2, 0], vec![2, 1, 0]] {
             for pol in [true, false] { out.push(json!({"case": "bdd_newvar", "order": order, "pol": pol, "shape": shape, "only": only})); }
